@@ -255,7 +255,34 @@ func main() {
 		fmt.Fprintln(os.Stderr, "translator pipeline: decoder.Start not found")
 		os.Exit(1)
 	}
-	bodies := goBodies(dec, start)
+	// the set-up code: Start and, transitively, the unexported methods of the decoder it calls
+	// directly (a Start split into helpers means the same); goroutine bodies are found in all of them
+	scope := []*ast.FuncDecl{start}
+	seen := map[string]bool{"Start": true, "readFileBlock": true}
+	for i := 0; i < len(scope) && i < 8; i++ {
+		ast.Inspect(scope[i].Body, func(n ast.Node) bool {
+			if _, isGo := n.(*ast.GoStmt); isGo {
+				return false // `go dec.m()` is a goroutine body, handled by goBodies
+			}
+			if call, ok := n.(*ast.CallExpr); ok {
+				if sel, ok := call.Fun.(*ast.SelectorExpr); ok && src(sel.X) == "dec" && !ast.IsExported(sel.Sel.Name) && !seen[sel.Sel.Name] {
+					if m := method(dec, "decoder", sel.Sel.Name); m != nil {
+						seen[sel.Sel.Name] = true
+						scope = append(scope, m)
+					}
+				}
+			}
+			return true
+		})
+	}
+	var bodies []*ast.BlockStmt
+	for _, fd := range scope {
+		bodies = append(bodies, goBodies(dec, fd)...)
+	}
+	scopeNodes := make([]ast.Node, 0, len(scope)+1)
+	for _, fd := range scope {
+		scopeNodes = append(scopeNodes, fd)
+	}
 	// classify goroutines: worker (ranges over input), reader (calls readFileBlock), serializer (sends on dec.serializer)
 	var worker, reader, ser *ast.BlockStmt
 	for _, g := range bodies {
@@ -281,7 +308,7 @@ func main() {
 				skip[o] = true
 			}
 		}
-		return chanRoles(skip, start, g)
+		return chanRoles(skip, append(append([]ast.Node{}, scopeNodes...), g)...)
 	}
 	roles := rolesFor(ser)
 	selects := func(g *ast.BlockStmt) (sel []string, bare []string) {
@@ -335,7 +362,10 @@ func main() {
 		def(g.name+"_selects", "list string", coqStrs(sel), "every select of the "+g.name+" goroutine: its cases, sorted, joined by |")
 		def(g.name+"_bare_chan_ops", "list string", coqStrs(bare), "channel sends/receives of the "+g.name+" goroutine outside any select")
 	}
-	usesTime := contains(start, "time.")
+	usesTime := false
+	for _, fd := range scope {
+		usesTime = usesTime || contains(fd, "time.")
+	}
 	for _, g := range bodies {
 		usesTime = usesTime || contains(g, "time.")
 	}
@@ -368,42 +398,44 @@ func main() {
 	// 2. capacities
 	budget, budgetOK, capVar := "?", false, "?"
 	inCap, outCap, serCap, wgAdd, clamp := "?", "?", "?", "?", false
-	ast.Inspect(start.Body, func(n ast.Node) bool {
-		switch x := n.(type) {
-		case *ast.AssignStmt:
-			if len(x.Lhs) == 1 && len(x.Rhs) == 1 {
-				l, r := src(x.Lhs[0]), x.Rhs[0]
-				if be, ok := r.(*ast.BinaryExpr); ok && be.Op == token.QUO && src(be.Y) == "n" {
-					if lit, ok := be.X.(*ast.BasicLit); ok && lit.Kind == token.INT {
-						budget, budgetOK, capVar = lit.Value, true, l
-					} else if id, ok := be.X.(*ast.Ident); ok {
-						if v, ok := intConsts(dec)[id.Name]; ok { // a named package constant
-							budget, budgetOK, capVar = v, true, l
+	for _, fd := range scope {
+		ast.Inspect(fd.Body, func(n ast.Node) bool {
+			switch x := n.(type) {
+			case *ast.AssignStmt:
+				if len(x.Lhs) == 1 && len(x.Rhs) == 1 {
+					l, r := src(x.Lhs[0]), x.Rhs[0]
+					if be, ok := r.(*ast.BinaryExpr); ok && be.Op == token.QUO && src(be.Y) == "n" {
+						if lit, ok := be.X.(*ast.BasicLit); ok && lit.Kind == token.INT {
+							budget, budgetOK, capVar = lit.Value, true, l
+						} else if id, ok := be.X.(*ast.Ident); ok {
+							if v, ok := intConsts(dec)[id.Name]; ok { // a named package constant
+								budget, budgetOK, capVar = v, true, l
+							}
+						}
+					}
+					if call, ok := r.(*ast.CallExpr); ok && src(call.Fun) == "make" && len(call.Args) == 2 {
+						switch l {
+						case "input":
+							inCap = src(call.Args[1])
+						case "output":
+							outCap = src(call.Args[1])
+						case "dec.serializer":
+							serCap = src(call.Args[1])
 						}
 					}
 				}
-				if call, ok := r.(*ast.CallExpr); ok && src(call.Fun) == "make" && len(call.Args) == 2 {
-					switch l {
-					case "input":
-						inCap = src(call.Args[1])
-					case "output":
-						outCap = src(call.Args[1])
-					case "dec.serializer":
-						serCap = src(call.Args[1])
-					}
+			case *ast.CallExpr:
+				if src(x.Fun) == "dec.wg.Add" && len(x.Args) == 1 {
+					wgAdd = src(x.Args[0])
+				}
+			case *ast.IfStmt:
+				if src(x.Cond) == "n < 1" && contains(x.Body, "n = 1") {
+					clamp = true
 				}
 			}
-		case *ast.CallExpr:
-			if src(x.Fun) == "dec.wg.Add" && len(x.Args) == 1 {
-				wgAdd = src(x.Args[0])
-			}
-		case *ast.IfStmt:
-			if src(x.Cond) == "n < 1" && contains(x.Body, "n = 1") {
-				clamp = true
-			}
-		}
-		return true
-	})
+			return true
+		})
+	}
 	if !budgetOK {
 		budget = "0"
 	}
@@ -508,8 +540,20 @@ func main() {
 	guard := "?"
 	if scan != nil {
 		ast.Inspect(scan.Body, func(n ast.Node) bool {
-			if i, ok := n.(*ast.IfStmt); ok && contains(i.Body, "return false") && contains(i.Cond, "s.closed") {
+			i, ok := n.(*ast.IfStmt)
+			if !ok || !contains(i.Cond, "s.closed") || i.Else != nil {
+				return true
+			}
+			if contains(i.Body, "return false") && !contains(i.Body, "Next()") {
+				// if G { return false } ... Next
 				guard = src(i.Cond)
+			} else if contains(i.Body, "s.decoder.Next()") && !contains(i.Body, "return false") {
+				// if C1 && C2 && ... { ...Next...; return ... }; return false   ==   guard = !C1 || !C2 || ...
+				var neg []string
+				for _, c := range strings.Split(src(i.Cond), " && ") {
+					neg = append(neg, negate(strings.TrimSpace(c)))
+				}
+				guard = strings.Join(neg, " || ")
 			}
 			return true
 		})
@@ -552,6 +596,21 @@ func main() {
 		fmt.Fprintln(os.Stderr, err)
 		os.Exit(1)
 	}
+}
+
+// negate a simple condition: x == nil <-> x != nil, !x <-> x
+func negate(c string) string {
+	switch {
+	case strings.HasSuffix(c, " == nil"):
+		return strings.TrimSuffix(c, " == nil") + " != nil"
+	case strings.HasSuffix(c, " != nil"):
+		return strings.TrimSuffix(c, " != nil") + " == nil"
+	case strings.HasPrefix(c, "!") && !strings.ContainsAny(c, " "):
+		return strings.TrimPrefix(c, "!")
+	case !strings.ContainsAny(c, " "):
+		return "!" + c
+	}
+	return "?not(" + c + ")"
 }
 
 func sortStrings(l []string) {
